@@ -1,11 +1,16 @@
 //! Harness binary `h_sw_c <PROP> --seed S --tier T [--count N] [--replay F]`.
 //! One module per property (`cNN.rs`, `pub fn run(args: &hcore::Args, out: &mut hcore::Out)`).
 
+mod c03;
+mod c12;
+
 fn main() {
     let args = hcore::Args::parse();
     hcore::quiet_panics();
     let mut out = hcore::Out::new();
     match args.prop.as_str() {
+        "C03" => c03::run(&args, &mut out),
+        "C12" => c12::run(&args, &mut out),
         p => {
             let _ = &mut out;
             eprintln!("h_sw_c: unknown property {p}");
